@@ -50,10 +50,11 @@ func c11(w []string) string {
 		case "inv":
 			n := atoi(w[1])
 			e := parseElems(w[2])
+			ref := append([]gf2p16.T(nil), e...) // the reference must not alias what the matrix was built from
 			m := gf2p16.NewMatrixFromSlice(n, n, e)
 			inv, err := m.Inverse()
 			mod := ""
-			if !sameElems(m, n, n, e) {
+			if !sameElems(m, n, n, ref) || !elemsEq(e, ref) {
 				mod = " opmod"
 			}
 			if err != nil {
@@ -63,11 +64,12 @@ func c11(w []string) string {
 		case "rr":
 			n, c := atoi(w[1]), atoi(w[2])
 			em, en := parseElems(w[3]), parseElems(w[4])
+			refm, refn := append([]gf2p16.T(nil), em...), append([]gf2p16.T(nil), en...)
 			m := gf2p16.NewMatrixFromSlice(n, n, em)
 			nn := gf2p16.NewMatrixFromSlice(n, c, en)
 			res, err := m.RowReduceForInverse(nn)
 			mod := ""
-			if !sameElems(m, n, n, em) || !sameElems(nn, n, c, en) {
+			if !sameElems(m, n, n, refm) || !sameElems(nn, n, c, refn) || !elemsEq(em, refm) || !elemsEq(en, refn) {
 				mod = " opmod"
 			}
 			if err != nil {
@@ -77,17 +79,30 @@ func c11(w []string) string {
 		case "times":
 			r, k, k2, c := atoi(w[1]), atoi(w[2]), atoi(w[3]), atoi(w[4])
 			ea, eb := parseElems(w[5]), parseElems(w[6])
+			refa, refb := append([]gf2p16.T(nil), ea...), append([]gf2p16.T(nil), eb...)
 			a := gf2p16.NewMatrixFromSlice(r, k, ea)
 			b := gf2p16.NewMatrixFromSlice(k2, c, eb)
 			res := a.Times(b)
 			mod := ""
-			if !sameElems(a, r, k, ea) || !sameElems(b, k2, c, eb) {
+			if !sameElems(a, r, k, refa) || !sameElems(b, k2, c, refb) || !elemsEq(ea, refa) || !elemsEq(eb, refb) {
 				mod = " opmod"
 			}
 			return "ok " + matHex(res, r, c) + mod
 		}
 		panic("c11: bad command")
 	})
+}
+
+func elemsEq(a, b []gf2p16.T) bool {
+	if len(a) != len(b) {
+		return false
+	}
+	for i := range a {
+		if a[i] != b[i] {
+			return false
+		}
+	}
+	return true
 }
 
 func init() { extraDispatch["c11"] = c11 }
